@@ -4,16 +4,25 @@
 # builds and passes its own tests, runs the named checks, and reverts.
 # Prints one line per check: MUTANT <patch> <prop> caught|MISSED|broken(rc).
 set -u
-P="$(readlink -f "$1")"; PROPS="$2"; TIER="${3:-quick}"
+P="$(readlink -f "$1")"; PROPS="$2"; TIER="${3:-quick}"; SELF="$(readlink -f "$0")"
 export GOFLAGS=-mod=mod GOPROXY=off GOSUMDB=off GOTOOLCHAIN=local
-cd /repo || exit 2
-[ -z "$(git status --porcelain)" ] || { echo "mutant.sh: /repo is not clean" >&2; exit 2; }
-revert() { git -C /repo checkout -- . ; git -C /repo clean -fdq; }
+if [ "${QV_MUT_WORKTREE:-0}" = 1 ]; then
+  # work on a scratch worktree of /repo's HEAD instead of /repo itself (background re-runs)
+  WT="$(mktemp -d /tmp/qvmut-wt.XXXXXX)"; rmdir "$WT"
+  git -C /repo worktree add -q --detach "$WT" HEAD || exit 2
+  export QV_REPO="$WT"
+  cd "$WT" || exit 2
+  revert() { git -C /repo worktree remove --force "$WT" 2>/dev/null; rm -rf "$WT"; }
+else
+  cd /repo || exit 2
+  [ -z "$(git status --porcelain)" ] || { echo "mutant.sh: /repo is not clean" >&2; exit 2; }
+  revert() { git -C /repo checkout -- . ; git -C /repo clean -fdq; }
+fi
 trap revert EXIT INT TERM
 git apply "$P" || { echo "MUTANT $(basename "$P") does-not-apply"; exit 2; }
 if ! go build ./... >/dev/null 2>&1; then echo "MUTANT $(basename "$P") does-not-compile"; exit 2; fi
 if ! go test -vet=off -count=1 ./... >/tmp/mutant-tests.log 2>&1; then echo "MUTANT $(basename "$P") fails-own-tests"; grep -m3 "FAIL" /tmp/mutant-tests.log; [ "${QV_MUT_FORCE:-0}" = 1 ] || exit 3; fi
-cd /verif
+cd "$(dirname "${SELF:-$(readlink -f "$0")}")/.." || exit 2
 # evidence and replay files of mutant runs must not overwrite those of the real tree
 export QV_EVIDENCE_DIR="$(mktemp -d /tmp/qvmut-ev.XXXXXX)" QV_REPLAY_DIR="$(mktemp -d /tmp/qvmut-rp.XXXXXX)"
 for prop in ${PROPS//,/ }; do
